@@ -382,3 +382,32 @@ Proof.
   rewrite <- !app_assoc. reflexivity.
 Qed.
 Print Assumptions submodule_merge_boundary.
+
+(** grouping_extract at module level, through the whole pipeline: a run [B] of top-level data
+    definitions of the main module becomes [uses g] and [grouping g { B }] a new top-level grouping —
+    [compile] is unchanged (one more unit of fuel for the folded text).  [clean]: no statement of
+    the module's groupings (incl. submodules'), data definitions or augments uses a grouping
+    called [g] already. *)
+Theorem grouping_extract_compile : forall f n pfx grps pre B rest augs subs imps g t,
+  let ms  := ge_ms n pfx grps pre B rest augs subs imps in
+  let ms' := ge_ms n pfx (SGrouping g [] B :: grps) pre [SUses None g None [] []] rest augs
+                   subs imps in
+  clean g (top_frame ms) = true -> clean g (all_body ms) = true -> clean g (all_augs ms) = true ->
+  (compile_modset (S f) ms' = Ok t -> compile_modset (S f) ms = Ok t) /\
+  (compile_modset (S f) ms = Ok t -> compile_modset (S (S f)) ms' = Ok t).
+Proof. exact grouping_extract_compile_proof. Qed.
+Print Assumptions grouping_extract_compile.
+
+(** satisfiable: module m { grouping h { leaf c; }  leaf p;  leaf a; uses h;  leaf z; }
+    with B = { leaf a; uses h; } *)
+Example grouping_extract_compile_applies :
+  let ms  := ge_ms [x6d] [x6d] [ge_h] [lf [x70]] ge_B ge_rest [] [] [] in
+  let ms' := ge_ms [x6d] [x6d] [SGrouping [x67] [] ge_B; ge_h] [lf [x70]]
+                   [SUses None [x67] None [] []] ge_rest [] [] [] in
+  clean [x67] (top_frame ms) = true /\ clean [x67] (all_body ms) = true /\
+  clean [x67] (all_augs ms) = true /\
+  (exists t, compile_modset 3 ms = Ok t /\ compile_modset 4 ms' = Ok t /\ length t = 4).
+Proof.
+  cbv zeta. split; [reflexivity|]. split; [reflexivity|]. split; [reflexivity|].
+  eexists. split; [vm_compute; reflexivity|]. split; vm_compute; reflexivity.
+Qed.
